@@ -491,6 +491,27 @@ pub fn record(seed: u64, n: usize, out: &str) {
             }
         }
     }
+    // calendars with ONE working day a week (six masked weekdays: still a calendar inside every property's quantifier),
+    // one per choice of the working day, core and Python-facing
+    for wdk in 0..7u8 {
+        let mask: Vec<u8> = (0..7u8).filter(|w| *w != wdk).collect();
+        let (centre, lo, hi) = window(&mut r, 1);
+        let hols = rand_hols(&mut r, lo, hi, centre);
+        let c = Cal::new(hols.clone(), mask.clone());
+        let def = cal_def(&c, &hols, &mask, lo, hi);
+        wd.enter(&format!("oneday/{}/Cal", wdk));
+        let q = random_queries(&c, &mut r, centre, 25, lo, hi);
+        let mut e = event(&format!("oneday/{}/Cal", wdk), "Cal", &c, lo, hi, q);
+        e["defs"] = json!([def.clone()]);
+        o.emit(&e);
+        let pc = PyCal(c);
+        let q = random_queries(&pc, &mut r, centre, 25, lo, hi);
+        let mut e = event(&format!("oneday/{}/PyCal", wdk), "PyCal", &pc, lo, hi, q);
+        e["defs"] = json!([def]);
+        e["pyv"] = pyv_cal(&pc.0, lo, hi);
+        wd.leave();
+        o.emit(&e);
+    }
     eprintln!("cal record: {} events", o.finish());
 }
 
